@@ -905,6 +905,8 @@ int32 matrixSslGetReadbufOfSize(ssl_t *ssl, int32 size, unsigned char **buf)
         if ((p = psRealloc(ssl->inbuf, ssl->inlen + size, ssl->bufferPool))
             == NULL)
         {
+            /* A failed realloc leaves the original block allocated */
+            psFree(ssl->inbuf, ssl->bufferPool);
             ssl->inbuf = NULL; ssl->insize = 0; ssl->inlen = 0;
             return PS_MEM_FAIL;
         }
